@@ -588,6 +588,14 @@ func c11Run(c core.Case) core.Result {
 			"{% from 'mac' import nosuch %}ab",
 			"{% from 'mac' import m, nosuch as q %}ab",
 			"{% import 'mac' as i %}{% set r = i.nosuch('x') %}ab",
+			// ... inside loop bodies, loops inside macro bodies, captures, other calls' arguments, without arguments
+			"{% import 'mac' as i %}a{% for q in [1, 2] %}{{ i.nosuch(q) }}{% endfor %}b",
+			"{% import 'mac' as i %}a{% for q in [1] %}{% for r in [1] %}{{ i.nosuch() }}{% endfor %}{% endfor %}b",
+			"{% import 'mac' as i %}{% macro w(a) %}{% import 'mac' as j %}{% for q in [1] %}{{ j.nosuch(a) }}{% endfor %}{% endmacro %}a{{ _self.w(1) }}b",
+			"{% import 'mac' as i %}a{% set c %}{% for q in [1] %}{{ i.nosuch() }}{% endfor %}{% endset %}b",
+			"{% import 'mac' as i %}a{{ i.m(i.nosuch()) }}b",
+			"{% import 'mac' as i %}a{{ i.nosuch() }}b",
+			"{% import 'mac' as i %}a{% for k, v in {'x': 1} %}{% if v %}{{ i.nosuch(v) }}{% endif %}{% endfor %}b",
 		}
 		tpls := map[string]string{"mac": c11MacroDef("m", 1), "main": srcs[c.N[0]]}
 		_, err, pan, _ := c11Exec(tpls)
@@ -737,8 +745,8 @@ func c11Levels(tier string) []core.Level {
 				}
 			}
 		}},
-		{Name: "unknown macro of an imported set is an error (5 forms)", Gen: func(emit func(core.Case)) {
-			for i := 0; i < 5; i++ {
+		{Name: "unknown macro of an imported set is an error (12 forms: printed, as an attribute, imported, assigned; inside loops, loops in macro bodies, captures, other calls' arguments, without arguments)", Gen: func(emit func(core.Case)) {
+			for i := 0; i < 12; i++ {
 				emit(core.Case{Fam: "unknown", N: []int{i}})
 			}
 		}},
